@@ -12,3 +12,12 @@ CONSTANTS
   WithCall = TRUE
   WithPar = TRUE
   Salts = {1}
+  Rids = {TRUE, FALSE}
+  Maps = {"none", "exact", "dbwild"}
+  CallChs = {"chA", "chB"}
+  CallObjs = {"any"}
+  Eps = {}
+  SeedLvls = {}
+  LearnKinds = {}
+  MaxCalls = 100
+  SwallowLvls = {}
